@@ -11,6 +11,10 @@
 (*           segment (a later decode must not change an earlier message)       *)
 (*   trunc   the recorded byte stream cut at k, decoded by a fresh decoder     *)
 (*   corrupt one byte of the recorded stream changed, decoded likewise         *)
+(*   scenario / cut / deliver  stream level (codecsim -conn): a real           *)
+(*           streamWriter and a real streamReader over several connections;    *)
+(*           `cut` = the connection ends after k bytes (ZCodec Truncate),      *)
+(*           `deliver` = raft.Process calls in their global order              *)
 (* enc/dec are steps of ZCodec (SendFrame, Decode).  A continuation frame      *)
 (* where IsContinue does not hold is a mismatch even if it would decode well;  *)
 (* a full frame where a continuation would do is accepted.  The first          *)
@@ -23,25 +27,28 @@ EXTENDS ZCodec, Json, IOUtils, FiniteSets
 VARIABLES l,       \* next trace line
           bad,     \* a mismatch was seen in the current segment
           sentd,   \* digests of the messages written in this segment
-          ends     \* byte offset of the end of each frame written
+          ends,    \* byte offset of the end of each frame written
+          gw,      \* stream-level scenario: digests of everything written, over all its connections
+          gp       \* position in gw matched by the last `deliver` line
 
 Trace == ndJsonDeserialize(IOEnv.ZR_TRACE)
 E == Trace[l]
 
-tvars == <<cvars, l, bad, sentd, ends>>
+tvars == <<cvars, l, bad, sentd, ends, gw, gp>>
 
 TInit == /\ CInit([compact |-> TRUE, local |-> 0, remote |-> 0])
-         /\ l = 1 /\ bad = FALSE /\ sentd = <<>> /\ ends = <<>>
+         /\ l = 1 /\ bad = FALSE /\ sentd = <<>> /\ ends = <<>> /\ gw = <<>> /\ gp = 0
 
 Mismatch(what) == /\ bad' = TRUE
                   /\ PrintT(<<"MISMATCH", l, what>>)
+                  /\ gw' = <<>> /\ gp' = -1     \* the scenario's delivery log cannot be judged either
                   /\ UNCHANGED <<cvars, sentd, ends>>
 
 \* independent evaluations do not end the segment
 Note(what) == /\ PrintT(<<"MISMATCH", l, what>>)
-              /\ UNCHANGED <<cvars, sentd, ends, bad>>
+              /\ UNCHANGED <<cvars, sentd, ends, bad, gw, gp>>
 
-Same == UNCHANGED <<cvars, sentd, ends, bad>>
+Same == UNCHANGED <<cvars, sentd, ends, bad, gw, gp>>
 
 ObsFrame(m) == CASE E.kind = "hb"   -> HBFrame
                  [] E.kind = "cont" -> ContFrame(m)
@@ -61,7 +68,8 @@ OnEnc ==
   THEN /\ SendFrame(m, f)
        /\ sentd' = Append(sentd, E.dig)
        /\ ends' = Append(ends, (IF ends = <<>> THEN 0 ELSE ends[Len(ends)]) + E.nbytes)
-       /\ UNCHANGED bad
+       /\ gw' = (IF gp = -1 THEN gw ELSE Append(gw, E.dig))
+       /\ UNCHANGED <<bad, gp>>
   ELSE Mismatch(<<"enc", IF E.err # "" THEN "encode-error"
                          ELSE IF E.kind = "cont" THEN "cont-not-allowed"
                          ELSE "wrong-frame-kind", E.kind>>)
@@ -74,13 +82,13 @@ OnDec ==
        ELSE Mismatch(<<"dec", "after-eos", E.errclass>>)
   ELSE LET r == DecodeFrame(dec, cfg, Head(wire)) IN
        IF r.err
-       THEN IF ~NoError(E.errclass) THEN Decode /\ UNCHANGED <<sentd, ends, bad>>
+       THEN IF ~NoError(E.errclass) THEN Decode /\ UNCHANGED <<sentd, ends, bad, gw, gp>>
             ELSE Mismatch(<<"dec", "error-expected", E.errclass>>)
        ELSE IF E.errclass # "none"
             THEN Mismatch(<<"dec", "error-on-intact-stream", E.errclass>>)
             ELSE IF E.m # r.msg THEN Mismatch(<<"dec", "fields-differ", DiffFields(r.msg, E.m)>>)
             ELSE IF E.dig # sentd[Len(recvd) + 1] THEN Mismatch(<<"dec", "digest-differs", {}>>)
-            ELSE Decode /\ UNCHANGED <<sentd, ends, bad>>
+            ELSE Decode /\ UNCHANGED <<sentd, ends, bad, gw, gp>>
 
 \* ---- late digest
 OnLate ==
@@ -113,6 +121,23 @@ OnCorrupt ==
               ELSE IF MustDetect THEN "undetected-framing-damage"
               ELSE "silent-different-message", E.field>>)
 
+\* ---- stream-level scenarios (one real writer, one real reader, several connections)
+\* the connection is cut after E.k bytes: the frames that end at or before k survive
+OnCut ==
+  IF ~damaged /\ Whole(E.k) >= Len(recvd)
+  THEN Truncate(Whole(E.k) - Len(recvd)) /\ UNCHANGED <<sentd, ends, bad, gw, gp>>
+  ELSE Mismatch(<<"cut", "not-applicable", E.k>>)
+
+\* what the reader handed to raft, in the order of the Process calls over all connections of
+\* the scenario: an order-preserving, duplicate-free subsequence of what was written
+NextMatch == {j \in (gp + 1)..Len(gw) : gw[j] = E.dig}
+OnDeliver ==
+  IF gp = -1 THEN Same
+  ELSE IF NextMatch # {}
+  THEN /\ gp' = CHOOSE j \in NextMatch : \A i \in NextMatch : j <= i
+       /\ UNCHANGED <<cvars, sentd, ends, bad, gw>>
+  ELSE Note(<<"deliver", "duplicate-or-out-of-order", E.seq>>)
+
 TNext ==
   /\ l <= Len(Trace)
   /\ l' = l + 1
@@ -121,12 +146,17 @@ TNext ==
           /\ enc' = Ctx0 /\ dec' = Ctx0 /\ wire' = <<>> /\ sent' = <<>> /\ recvd' = <<>>
           /\ damaged' = FALSE /\ closed' = FALSE /\ whole' = 0
           /\ sentd' = <<>> /\ ends' = <<>> /\ bad' = FALSE
+          /\ IF E.stage = "conn" THEN UNCHANGED <<gw, gp>> ELSE gw' = <<>> /\ gp' = 0
+     ELSE IF E.ev = "scenario"
+     THEN gw' = <<>> /\ gp' = 0 /\ UNCHANGED <<cvars, sentd, ends, bad>>
+     ELSE IF E.ev = "deliver" THEN OnDeliver
      ELSE IF bad THEN Same     \* model and code have parted: nothing more to judge here
      ELSE CASE E.ev = "late"    -> OnLate
             [] E.ev = "trunc"   -> OnTrunc
             [] E.ev = "corrupt" -> OnCorrupt
             [] E.ev = "enc"     -> OnEnc
             [] E.ev = "dec"     -> OnDec
+            [] E.ev = "cut"     -> OnCut
             [] OTHER            -> Mismatch(<<E.ev, "no-such-action", "">>)
 
 TSpec == TInit /\ [][TNext]_tvars
